@@ -29,15 +29,23 @@ LEVEL_TEXT = (
     "Lean theorems for all call histories of unbounded length: Timer.elapsed equals an ideal stop-watch defined on the "
     "history alone (KeyError characterised, partial mutation included); solve() performs exactly maxiter iterations "
     "numbered consecutively, one record per iteration with the accessor values after that iteration, callback once per "
-    "iteration with its ticks excluded from the reported time, solve(m1);solve(m2) = solve(m1+m2), NaN stop at the first "
-    "iteration leaving any block of any working variable non-finite, maxiter=0 changes nothing. The model is tied to "
-    "scico.util.Timer / Optimizer.solve / the seven optimiser classes by exact replay of random histories."
+    "iteration with its ticks excluded from the reported time, any list of solve() calls with pauses = one solve() with the "
+    "total count, NaN stop at the first iteration leaving any block of any working variable non-finite, maxiter=0 changes "
+    "nothing; callbacks that assign itnum/maxiter cannot change the iteration count or the numbering of a call (simulation) and "
+    "their effect on the counter is given in closed form; ContextTimer (both actions), the table Timer.__str__ prints, "
+    "history(transpose=True), the display of IterationStats (closed form of the output, visible lines on an ideal terminal). "
+    "The statistics-column / working-variable tables of the model are regenerated from the source by an ast translator and "
+    "compared by the Lean kernel on every run. The model is tied to scico.util.Timer / ContextTimer / Optimizer.solve / "
+    "IterationStats / the seven optimiser classes by exact replay of random histories."
 )
 LEVEL_NOTE = (
     "Trusted: Lean kernel (axioms propext, Classical.choice, Quot.sound); the hand-written model is tied to the code only by "
     "differential testing (<=12 / <=200 operations per history, problem sizes 2-4); step() and the accessors are "
-    "parameters of the theorems (their numerics are C11's business); callbacks that assign itnum/maxiter/timer are outside "
-    "the model; clock assumed non-decreasing with integer ticks; display output of IterationStats is not modelled."
+    "parameters of the theorems (their numerics are C11's business); callbacks that assign nanstop/timer/itstat_object are "
+    "outside the model; clock assumed non-decreasing with integer ticks; the printed text is compared as a sequence of "
+    "(header | record n with its terminator | line feed) events rendered with scico's own format strings; two findings of the "
+    "tree as it is (Timer.__str__ with a running timer, counter after a callback assigned maxiter<=0) are modelled at their "
+    "documented/repaired behaviour and listed as known findings."
 )
 PROP_MODULES = ["Scico.Props.C15"]
 EXTRA_TARGETS = ["Drv.Driver"]
@@ -56,15 +64,19 @@ RULE = (
     "sessions: a random tiny problem (class, size 2-4, plain/block variables, sub-problem solver, NaN/Inf planted at a chosen "
     "iteration/functional/block/index, iter0, nanstop, statistics options) and a random history of solve(maxiter 0..4, "
     "callback or not)/step()/tick/nanstop operations with random integer step and callback durations; non-trivial when "
-    "the history performs >=1 iteration inside solve; distinct by (class, block, solver, nan spec, kwargs, ops). "
+    "the history performs >=1 iteration inside solve; 30% of the sessions let random callback invocations assign "
+    "optimizer.itnum / optimizer.maxiter; display options period 1-4 x shift_cycles x overwrite; distinct by (class, block, "
+    "solver, nan spec, kwargs, ops, assignments). "
     "timer: random constructor arguments and call sequences over labels a,b,all,main,zz (None/single/list/tuple "
-    "arguments, unknown labels, duplicates) on a random non-decreasing clock; non-trivial when >=1 elapsed query returns "
+    "arguments also for the constructor, unknown labels, duplicates, ContextTimer enter/exit with both actions, str(timer)) "
+    "on a random non-decreasing clock; non-trivial when >=1 elapsed query returns "
     "a positive value or a KeyError occurs; distinct by (cfg, calls)."
 )
 ASSUMPTIONS = [
     "the clock is non-decreasing and read only through scico.util.timer (fake clock with integer ticks)",
     "step() and the accessors are deterministic functions of the optimiser state (twin object driven by raw step() calls is the reference)",
-    "callbacks do not assign the driver attributes itnum / maxiter / timer / itstat_object",
+    "callbacks may assign optimizer.itnum / optimizer.maxiter (modelled) but not nanstop / timer / itstat_object",
+    "IterationStats period >= 1 (period 0 raises ZeroDivisionError in insert)",
 ]
 
 MAX_OPS_QUICK, MAX_OPS_THOROUGH = 12, 200
@@ -109,7 +121,7 @@ def eval_session(model, case):
     opts = model_options(model, spec.get("kwargs", {}))
     mres = model.call(
         "session", iter0=opts["iter0"], nanstop=opts["nanstop"], clock=clock0, ops=ops, stepTicks=st[: n + 1], cbTicks=ct[: n + 1],
-        vars=twin["fin"] + [[]], ctl=(ctl or []),
+        vars=twin["fin"] + [[]], ctl=(ctl or []), disp=D.display_opts(spec.get("kwargs", {}).get("itstat_options")),
     )
     bundle = {"twin": twin, "real": real, "model": mres, "min0": min0}
     custom = spec.get("kwargs", {}).get("itstat_options") == "custom"
@@ -158,6 +170,17 @@ def eval_session(model, case):
                     return mm(f"callback {q} sees records", c["nrows"], nrows + q + 1), bundle
                 if not D.same_flat(c["min"], twin["min"][m[1] - 1]):
                     return mm(f"callback {q} sees state after {m[1]} steps", c["min"], twin["min"][m[1] - 1]), bundle
+            # what was printed: the model's events rendered with the object's own header and row texts
+            text = ""
+            for ev in mo["printed"]:
+                if ev == "header":
+                    text += str(real["header"]) + "\n"
+                elif ev == "newline":
+                    text += "\n"
+                else:
+                    text += ob.get("row_text", {}).get(ev[0], f"<no record {ev[0]}>") + ("\n" if ev[1] else "\r")
+            if ob["printed_text"] != text:
+                return mm("printed text", ob["printed_text"], text), bundle
             if ob["outcome"] == "ok":
                 want = twin["min"][mo["ret"] - 1] if mo["ret"] > 0 else min0
                 if not D.same_flat(ob["ret"], want):
@@ -250,7 +273,11 @@ def check_session(ctx, model, case, origin="gen"):
             ctx.count(f"solve:callback={o['cb']}")
     ctx.count("session:records", iters)
     if spec.get("kwargs", {}).get("itstat_options"):
-        ctx.count(f"session:itstat_options={spec['kwargs']['itstat_options']}")
+        ctx.count(f"session:itstat_options={spec['kwargs']['itstat_options'].split(':')[0]}")
+        dopt = D.display_opts(spec["kwargs"]["itstat_options"])
+        if dopt["display"]:
+            ctx.count(f"display:period={dopt['period']} shift={int(dopt['shift_cycles'])} overwrite={int(dopt['overwrite'])}")
+            ctx.count("display:characters compared", sum(len(c.get("printed_text", "")) for c in bundle["real"]["obs"] if c.get("op") == "solve"))
     if case.get("ctl"):
         ctx.count("session:callbacks assign itnum/maxiter")
         ncb = sum(len(c.get("cbs", [])) for c in bundle["real"]["obs"] if c.get("op") == "solve")
@@ -340,13 +367,16 @@ def eval_timer(model, case):
 
 def timer_oracle(case):
     cfg, calls = case["cfg"], case["calls"]
-    impl, _ = D.run_timer(cfg, calls)
-    want = G.timer_oracle(cfg, calls)
+    impl, keys = D.run_timer(cfg, calls)
+    want, want_keys = G.timer_oracle(cfg, calls, with_keys=True)
     for i, (a, b) in enumerate(zip(impl, want)):
         if a != b:
             return {"cfg": cfg, "calls": calls[: i + 1], "call_index": i, "timer_returned": a, "ideal_stopwatch": b,
                     "fails": ("str(timer) raised TypeError; the documented table of the ideal stop-watch is given" if a == "TypeError" else
                               "Timer result differs from the ideal stop-watch (-1 = KeyError)")}
+        if keys[i] != want_keys[i]:
+            return {"cfg": cfg, "calls": calls[: i + 1], "call_index": i, "labels_returned": keys[i], "labels_expected": want_keys[i],
+                    "fails": "Timer.labels() is not the list of labels given to the constructor or started so far"}
     return None
 
 
